@@ -176,6 +176,24 @@ pub async fn run(seed: u64, mode: &str, gap_ms: u64, out_path: &str) -> eyre::Re
                 }
             }
         }
+        if mode == "restored-abrupt" && restored && !first_after.is_null() {
+            // second lifetime of the same subscription: it was restored, has processed a change since, and now the
+            // process "dies" (files taken as they are); the next start must discard it
+            let dir3 = fresh_dir("sublife-copy2");
+            copy_dir(&dir, &dir3)?;
+            let conf3 = make_conf(&dir3)?;
+            let sub_db3 = Matcher::sub_db_path(conf3.db.subscriptions_path().as_path(), sub_id);
+            let marker: Option<String> = rusqlite::Connection::open(sub_db3.as_std_path()).ok().and_then(|c| c.query_row("SELECT value FROM meta WHERE key = 'state'", [], |r| r.get(0)).ok());
+            let (tw3, w3, t3) = klukai_types::tripwire::Tripwire::new_simple();
+            std::mem::forget(w3);
+            std::mem::forget(t3);
+            let (agent3, _b3, _t3, _h3) = klukai_agent::agent::start_with_config(conf3.clone(), tw3).await?;
+            let restored3 = klukai_types::updates::Manager::get(agent3.subs_manager(), &sub_id).is_some();
+            let dir_exists3 = Matcher::sub_path(conf3.db.subscriptions_path().as_path(), sub_id).as_std_path().exists();
+            let client3 = CorrosionApiClient::new(agent3.api_addr());
+            let snap3 = snapshot(&client3, sub_id).await;
+            merge(&mut result, json!({"second_life": {"marker_at_kill": marker, "restored": restored3, "dir_exists_after_start": dir_exists3, "attach_after_start": snap3}}));
+        }
         merge(
             &mut result,
             json!({"state_at_stop": state, "max_change_id_at_stop": max_id, "view_rows_at_stop": view_n, "last_change_seen_by_client": last_seen,
